@@ -774,11 +774,16 @@ pub fn run(tier: Tier) -> ! {
             vac.push("reused-buffer or Pending-interleaved stream slots never succeeded".into());
         }
         let ns = |k: &str| net.stats.get(k).copied().unwrap_or(0);
-        let per_ep = (net_n / net::ENDPOINTS.len()) as u64;
-        if ns("scenarios") != net_n as u64
-            || ns("server_closed") + ns("server_error_reply") != 2 * per_ep
-            || ns("liveness_ok") != 2 * per_ep
-            || ns("client_call_err") != 2 * per_ep
+        let (tcp_n, ws_n) = net::applicable_counts();
+        let (tcp_n, ws_n) = (tcp_n as u64, ws_n as u64);
+        if ns("scenarios") != 4 * tcp_n + 3 * ws_n
+            || ns("server_closed") + ns("server_error_reply") != 2 * tcp_n
+            || ns("liveness_ok") != 2 * tcp_n
+            || ns("client_call_err") != 2 * tcp_n
+            || ns("ws_server_ended") != ws_n
+            || ns("ws_server_liveness_ok") != ws_n
+            || ns("ws_proxy_ended_nothing_forwarded") != ws_n
+            || ns("ws_client_call_err") != ws_n
         {
             vac.push(format!("network phase incomplete: {:?} for {net_n} scenarios", net.stats));
         }
@@ -805,20 +810,23 @@ pub fn run(tier: Tier) -> ! {
     let distinct_outcomes: usize = (0..10)
         .map(|i| (c.per_entry[i][1] > 0) as usize + (c.per_entry[i][3] > 0) as usize + c.err_class[i].iter().filter(|&&n| n > 0).count())
         .sum();
+    let net_applicable = {
+        let (t, w) = net::applicable_counts();
+        4 * t + 3 * w
+    };
     let coverage = json!({
         "states": distinct,
         "transitions": c.executions + net.stats.get("scenarios").copied().unwrap_or(0),
         "traces_validated_against_impl": c.executions + net.stats.get("scenarios").copied().unwrap_or(0),
         "parser_reader_executions": c.executions,
         "network_phase": {
-            "what": "each hostile header sent over loopback TCP as a request to repe::Server and repe::AsyncServer (after one valid echo on the same connection)                      and as the response to a pending call of repe::Client and repe::AsyncClient; oracle: no thread panics, process survives, server closes or answers with an error                      and still serves a fresh connection, the pending call returns an error within 10 s",
+            "what": "each hostile header sent over loopback TCP as a request to repe::Server and repe::AsyncServer (after one valid echo on the same connection) and as the response to a pending call of repe::Client and repe::AsyncClient; oracle: no thread panics, process survives, server closes or answers with an error and still serves a fresh connection, the pending call returns an error within 10 s. The same payloads plus WebSocket-only ones (valid frame + trailing bytes, two frames in one message, a frame cut short, a text message) sent as one WebSocket message to a WebSocketServer connection, to proxy_connection_with_limits and as the response to a pending WebSocketClient call, over in-memory streams on a paused clock; oracle: no task panics, the connection ends or answers with an error frame, nothing is forwarded upstream by the proxy, a fresh connection is served, the pending call returns an error that is not its own timeout",
             "endpoints": net::ENDPOINTS,
             "hostile_headers": net::hostiles().iter().map(|h| h.name.clone()).collect::<Vec<_>>(),
-            "scenarios_enumerated": net_n,
+            "scenarios_enumerated": net_applicable,
             "measured": net.stats,
             "worker_deaths": net.deaths,
             "worker_processes": net.processes,
-            "not_covered": "WebSocketServer / WebSocketClient (they parse with MessageView::from_slice_exact, covered in the first phase)",
         },
         "inputs_executed": announced,
         "inputs_enumerated": expected_inputs,
